@@ -8,6 +8,7 @@ import (
 	"fmt"
 	"io"
 	"runtime"
+	"sync"
 	"sync/atomic"
 	"testing"
 	"time"
@@ -34,9 +35,9 @@ type Act struct {
 
 // Case is a generated scenario: one container, one or two iterators.
 type Case struct {
-	Box     string   `json:"box"`      // queue | deque | deque-reverse
-	Iters   []string `json:"iters"`    // per iterator: producer | iterator (queue); nonblocking | blocking | *-iterator (deque)
-	Initial int      `json:"initial"`  // items present before the iterators are created
+	Box     string   `json:"box"`     // queue | deque | deque-reverse
+	Iters   []string `json:"iters"`   // per iterator: producer | iterator (queue); nonblocking | blocking | *-iterator (deque)
+	Initial int      `json:"initial"` // items present before the iterators are created
 	Procs   int      `json:"gomaxprocs"`
 	Script  []Act    `json:"script"`
 }
@@ -48,14 +49,14 @@ type result struct {
 }
 
 type iter struct {
-	kind    string
-	read    func(context.Context) (int, error)
-	ctx     context.Context
-	cancel  context.CancelFunc
-	seen    int  // strong mode: number of items yielded
-	yielded map[int]bool
-	dead    bool // returned an error before
-	pending chan result
+	kind      string
+	read      func(context.Context) (int, error)
+	ctx       context.Context
+	cancel    context.CancelFunc
+	seen      int // strong mode: number of items yielded
+	yielded   map[int]bool
+	dead      bool // returned an error before
+	pending   chan result
 	cancelled bool
 }
 
@@ -679,5 +680,141 @@ func TestQueueIteratorWindow(t *testing.T) {
 			vkit.Fail(t, tWindow, "C20:window/"+k, *c, "%s", why)
 		}
 		vkit.Case(tWindow, vkit.Hash(*c), true, []string{fmt.Sprintf("hook-fired:%v", inWindow), "first-op:" + c.Ops[0]}, func() any { return *c })
+	})
+}
+
+// ---------------------------------------------------------------------
+// hook variant 2: the context of a blocked iterator step is cancelled
+// between the step's look at the container and its parking on the
+// condition variable - "a blocked step returns ... its context error after
+// cancel" for the cancellation that lands in that window.
+
+const tIterPark = "TestIteratorCancelInParkWindow"
+
+type iterParkCase struct {
+	Kind    string `json:"kind"`    // queue | deque-forward | deque-reverse
+	Initial int    `json:"initial"` // items present (all consumed before the step that parks)
+	Others  int    `json:"others"`  // other iterators already parked at the tail
+	Procs   int    `json:"gomaxprocs"`
+}
+
+func runIterPark(c *iterParkCase) string {
+	if c.Procs > 0 {
+		old := runtime.GOMAXPROCS(c.Procs)
+		defer runtime.GOMAXPROCS(old)
+	}
+	limit := vkit.Limit()
+	var mk func() *fun.Iterator[int]
+	var closeBox func()
+	switch c.Kind {
+	case "queue":
+		q := pubsub.NewUnlimitedQueue[int]()
+		for i := 0; i < c.Initial; i++ {
+			_ = q.Add(i + 1)
+		}
+		mk, closeBox = q.Iterator, func() { _ = q.Close() }
+	default:
+		dq := pubsub.NewUnlimitedDeque[int]()
+		for i := 0; i < c.Initial; i++ {
+			_ = dq.PushBack(i + 1)
+		}
+		closeBox = func() { _ = dq.Close() }
+		if c.Kind == "deque-forward" {
+			mk = func() *fun.Iterator[int] { return dq.ProducerBlocking().Iterator() }
+		} else {
+			mk = func() *fun.Iterator[int] { return dq.ProducerReverseBlocking().Iterator() }
+		}
+	}
+	base := parked()
+	octx, ocancel := context.WithCancel(context.Background())
+	var owg sync.WaitGroup
+	for i := 0; i < c.Others; i++ {
+		it := mk()
+		owg.Add(1)
+		go func() {
+			defer owg.Done()
+			for {
+				if _, err := it.ReadOne(octx); err != nil {
+					return
+				}
+			}
+		}()
+	}
+	vkit.Eventually(limit, func() bool { return parked()-base >= c.Others })
+
+	it := mk()
+	ctx, cancel := context.WithCancel(context.Background())
+	for i := 0; i < c.Initial; i++ {
+		if _, err := it.ReadOne(ctx); err != nil {
+			cancel()
+			ocancel()
+			closeBox()
+			owg.Wait()
+			return fmt.Sprintf("step %d of %d over the initial items returned %v", i, c.Initial, err)
+		}
+	}
+	var armed atomic.Bool
+	armed.Store(true)
+	verifhook.Set("pubsub.wait.before-cond-wait", func() {
+		// runs on the iterator's goroutine with the container's mutex held
+		if armed.CompareAndSwap(true, false) {
+			cancel()
+			for i := 0; i < 50; i++ {
+				runtime.Gosched()
+			}
+			time.Sleep(time.Millisecond)
+		}
+	})
+	done := make(chan error, 1)
+	go func() { _, err := it.ReadOne(ctx); done <- err }()
+	var res string
+	select {
+	case err := <-done:
+		if !errors.Is(err, context.Canceled) {
+			res = fmt.Sprintf("the blocked step returned %v, want its context error", err)
+		}
+	case <-time.After(limit):
+		res = fmt.Sprintf("the iterator step is still blocked %v after its context was cancelled (the cancellation fell between its look at the container and cond.Wait)", limit)
+	}
+	verifhook.Clear()
+	cancel()
+	ocancel()
+	closeBox()
+	wait := make(chan struct{})
+	go func() { owg.Wait(); close(wait) }()
+	select {
+	case <-wait:
+	case <-time.After(limit):
+	}
+	if armed.Load() && res == "" {
+		res = "the yield point pubsub.wait.before-cond-wait was never reached (is the harness built with -tags verif?)"
+	}
+	return res
+}
+
+func TestIteratorCancelInParkWindow(t *testing.T) {
+	var rc iterParkCase
+	if ok, err := vkit.ReplayCase(tIterPark, &rc); err != nil {
+		t.Fatal(err)
+	} else if ok {
+		if why := runIterPark(&rc); why != "" {
+			vkit.Fail(t, tIterPark, "C20:park-window/"+rc.Kind, rc, "%s", why)
+		}
+		return
+	}
+	rapid.Check(t, func(t *rapid.T) {
+		if vkit.AlreadyFailed(tIterPark) {
+			return
+		}
+		c := &iterParkCase{
+			Kind:    rapid.SampledFrom([]string{"queue", "deque-forward", "deque-reverse"}).Draw(t, "kind"),
+			Initial: rapid.IntRange(0, 3).Draw(t, "initial"),
+			Others:  rapid.IntRange(0, 2).Draw(t, "others"),
+			Procs:   rapid.SampledFrom([]int{1, 2, 16}).Draw(t, "gomaxprocs"),
+		}
+		if why := runIterPark(c); why != "" {
+			vkit.Fail(t, tIterPark, "C20:park-window/"+c.Kind, *c, "%s", why)
+		}
+		vkit.Case(tIterPark, vkit.Hash(*c), true, []string{"kind:" + c.Kind}, func() any { return *c })
 	})
 }
